@@ -5,6 +5,7 @@ import json, subprocess, sys, os
 pid, testargs = sys.argv[1], sys.argv[2]
 p = "/verif/known_findings/%s.json" % pid
 d = json.load(open(p))
+applied = {}
 for f in d["findings"]:
     if f.get("status") != "fix-pending":
         continue
@@ -12,6 +13,12 @@ for f in d["findings"]:
     msg = f["commit_message"]
     if not msg.startswith("fix:"):
         msg = "fix: " + msg
+    already = subprocess.run(["git", "-C", "/repo", "apply", "-R", "--check", patch]).returncode == 0
+    if already:
+        h = applied.get(patch) or subprocess.run(["git", "-C", "/repo", "log", "-1", "--format=%h", "--", "."], stdout=subprocess.PIPE, text=True).stdout.strip()
+        f["status"] = "fixed"; f["commit"] = h
+        f["fixed"] = "fixed: property=%s %s %s" % (pid, h, f["what"][:160])
+        print("already applied:", f["id"], h); continue
     r = subprocess.run(["/verif/tools/apply_fix.sh", patch, msg, testargs], stdout=subprocess.PIPE, stderr=subprocess.STDOUT, text=True)
     print(r.stdout[-600:])
     if r.returncode != 0:
@@ -20,4 +27,5 @@ for f in d["findings"]:
     f["status"] = "fixed"
     f["fixed"] = "fixed: property=%s %s %s" % (pid, h, f["what"][:160])
     f["commit"] = h
+    applied[patch] = h
 json.dump(d, open(p, "w"), indent=1)
